@@ -351,6 +351,28 @@ def translate():
           "{ if self . position . is_client ( ) && ...{12} . back . consumed { $ep . readiness_mut ( $t ) . arm_writable ( ) ; } else { $ep . end_stream ( $t ,",
           "{ if ...{12} . back . consumed && ! self . position . is_server ( ) { $ep . readiness_mut ( $t ) . arm_writable ( ) ; } else { $ep . end_stream ( $t ,"],
          "h2.rs: reset_stream asks the frontend for a default answer even when part of the response already went to the client (a 502 page would follow the bytes of the 200, ended cleanly)")
+    # trailer accounting (model `tstep`): size = name + value + overhead against min(max list, MAX_TRAILER_BYTES),
+    # then the field count, then validity; strict comparisons; END_STREAM required
+    for n, src in (("MAX_TRAILER_BYTES", K), ("HEADER_FIELD_SIZE_OVERHEAD", H)):
+        if n in src.consts:
+            consts[n] = int(src.consts[n])
+        else:
+            fails.append("%s: constant %s not found" % (os.path.basename(src.path), n))
+    need(K, "handle_trailer", ["if ! $es { return Err ( ( H2Error :: ProtocolError , false ) ) ; }"],
+         "pkawa.rs: handle_trailer no longer refuses a trailer block without END_STREAM with PROTOCOL_ERROR")
+    need(K, "handle_trailer",
+         ["$d = $d . saturating_add ( $k . len ( ) ) . saturating_add ( $v . len ( ) ) . saturating_add ( ...{10} HEADER_FIELD_SIZE_OVERHEAD ) ; "
+          "if $d > ( $m as usize ) . min ( %(mtb)s ) { $bx = true ; return ; } $c += 1 ; if $c > ( $mf as usize ) { $fx = true ; return ; } "
+          "if $k . starts_with (" % dict(mtb=consts.get("MAX_TRAILER_BYTES", 0)),
+          "$d = $d . saturating_add ( $k . len ( ) ) . saturating_add ( $v . len ( ) ) . saturating_add ( ...{10} HEADER_FIELD_SIZE_OVERHEAD ) ; "
+          "if $d > ( $m as usize ) . min ( %(mtb)s ) { $bx = true ; return ; } $c += 1 ; if $c > $mf as usize { $fx = true ; return ; } "
+          "if $k . starts_with (" % dict(mtb=consts.get("MAX_TRAILER_BYTES", 0))],
+         "pkawa.rs: handle_trailer no longer accounts name + value + overhead per field against min(MAX_HEADER_LIST_SIZE, MAX_TRAILER_BYTES), "
+         "then the field count, then validity, with strict comparisons (model tstep)")
+    need(K, "handle_trailer",
+         ["if $bx { ...{12} return Err ( ( H2Error :: EnhanceYourCalm , false ) ) ; } if $fx { ...{12} return Err ( ( H2Error :: EnhanceYourCalm , false ) ) ; } "
+          "if $ix { return Err ( ( H2Error :: ProtocolError , false ) ) ; }"],
+         "pkawa.rs: handle_trailer no longer answers over-budget / too many fields with ENHANCE_YOUR_CALM and an invalid field with PROTOCOL_ERROR (stream errors)")
     # trailer fields do not need room in the stream buffer (it may be full of undrained body)
     try:
         tb = K.body("handle_trailer")
@@ -363,7 +385,7 @@ def translate():
         json.dump(facts, open(FACTS_SNAPSHOT, "w"), indent=1, sort_keys=True)
     lines = ["(* GENERATED by props/c15.py:translate from /repo/lib/src/protocol/mux — do not edit. *)",
              "From Coq Require Import NArith List.", "Import ListNotations.", "Open Scope N_scope.", ""]
-    for k in PARSER_CONSTS + H2_CONSTS + ["FLOOD_WINDOW_MS", "MAX_LOOP_ITERATIONS"]:
+    for k in PARSER_CONSTS + H2_CONSTS + ["FLOOD_WINDOW_MS", "MAX_LOOP_ITERATIONS", "MAX_TRAILER_BYTES", "HEADER_FIELD_SIZE_OVERHEAD"]:
         if k in consts:
             lines.append("Definition %s : N := %d." % (k, consts[k]))
     lines.append("")
@@ -372,7 +394,7 @@ def translate():
     lines.append("Definition byte_of_type_table : list (N * N) := [%s]." % "; ".join("(%d, %d)" % x for x in f2t))
     lines.append("(* 0: stream id must be 0;  1: must be non-zero;  2: any *)")
     lines.append("Definition sid_rule_table : list (N * N) := [%s]." % "; ".join("(%d, %d)" % (k, rules[k]) for k in sorted(rules)))
-    if t2f and f2t and len(rules) == 12 and len(consts) == len(PARSER_CONSTS) + len(H2_CONSTS) + 2:
+    if t2f and f2t and len(rules) == 12 and len(consts) == len(PARSER_CONSTS) + len(H2_CONSTS) + 4:
         vlib.write_if_changed(os.path.join(vlib.COQ, "C15", "Gen.v"), "\n".join(lines) + "\n")
     return fails
 
@@ -707,12 +729,52 @@ def slot_case(rng, cid):
     return Case(cid, ops, dict(kind="slot"))
 
 
+def trailer_case(rng, cid):
+    """1-4 trailer blocks for pkawa::handle_trailer: field lists aimed at the budget min(max_list, 8192) (exactly met, one
+    octet over, far over), at the field limit (met, one over), with pseudo-header / invalid / elided fields placed before
+    or after the field that breaks a limit, with and without END_STREAM, chunked or length-framed body"""
+    ops = []
+    for _ in range(rng.randint(1, 4)):
+        max_list = rng.choice([65536, 65536, 8192, 8193, 4096, 100, 64, 33, 0, 16384])
+        max_fields = rng.choice([200, 200, 1, 2, 3, 8, 0, 100])
+        budget = min(max_list, 8192)
+        es = 0 if rng.random() < 0.08 else 1
+        lf = 1 if rng.random() < 0.25 else 0
+        fields = []
+        mode = rng.choice(["exact", "over1", "under", "many_small", "fieldlimit", "fieldlimit1", "random"])
+        if mode in ("exact", "over1", "under"):
+            target = budget + {"exact": 0, "over1": 1, "under": -rng.randint(1, 40)}[mode]
+            left = target
+            while left >= 34 and len(fields) < 180:
+                size = left if left < 34 + 60 and rng.random() < 0.5 else rng.randint(34, min(left, rng.choice([40, 64, 200, 1000, 9000])))
+                if left - size < 34 and left - size != 0:
+                    size = left
+                nl = rng.randint(1, min(size - 33, 40))
+                fields.append([0, nl, size - 32 - nl])
+                left -= size
+        elif mode == "many_small":
+            fields = [[0, rng.randint(1, 3), rng.randint(0, 2)] for _ in range(rng.randint(1, 260))]
+        elif mode in ("fieldlimit", "fieldlimit1"):
+            fields = [[0, 2, 1] for _ in range(max_fields + (1 if mode == "fieldlimit1" else 0))]
+        else:
+            fields = [[0, rng.randint(1, 30), rng.choice([0, 1, 10, 100, 4000, 9000])] for _ in range(rng.randint(0, 12))]
+        # defects and elided fields at random places (before or after the field that breaks a limit)
+        for _ in range(rng.choice([0, 0, 0, 1, 1, 2])):
+            kind = rng.choice([1, 2, 3, 2])
+            f = [kind, 9 if kind == 2 else rng.randint(2, 12), rng.randint(0, 20)]
+            fields.insert(rng.randint(0, len(fields)), f)
+        ops.append(["trl", max_list, max_fields, es, lf] + [x for f in fields for x in f])
+    return Case(cid, ops, dict(kind="trailer"))
+
+
 def gen_cases(rng, tier):
     n = {"quick": 4000, "thorough": 80000, "search": 30000}.get(tier, 4000)
     out = []
     for i in range(n):
         r = i % 20
-        if r < 8:
+        if r == 19 and (i // 20) % 2 == 0:
+            out.append(trailer_case(rng, "q%d" % i))
+        elif r < 8:
             out.append(decode_case(rng, "s%d" % i, "structured"))
         elif r < 12:
             out.append(decode_case(rng, "m%d" % i, "mut"))
@@ -750,6 +812,8 @@ def nontrivial(case, o):
         return "trip" in toks and "none" in toks
     if "snew" in kinds:
         return "reuse" in toks
+    if "trl" in kinds:
+        return "ok" in toks and "err" in toks
     return "ok" in toks and "small" in toks
 
 
@@ -757,9 +821,11 @@ RULE = ("cases: decoder cases (1-6 `dec` ops: one structured frame of every type
         "boundaries of that type's size rule, optionally mutated or followed by more bytes; raw random prefixes; "
         "`sdec` = the preface path calling settings_frame directly), encoder cases (every serializer function x "
         "buffer capacities around the frame size), flood-detector cases (small thresholds, bump/tick/check "
-        "sequences), slot-table cases (create/kill/shrink). Non-trivial and distinct: a decoder case with both an "
+        "sequences), slot-table cases (create/kill/shrink), trailer-block cases (`trl`: the real pkawa::handle_trailer on HPACK blocks whose "
+        "accounted size meets the budget min(max list, 8192) exactly / by one octet over, field count at the limit and one over, "
+        "pseudo-header / invalid / elided fields before or after the breaking field). Non-trivial and distinct: a decoder case with both an "
         "accepted frame and a rejection/short read, a flood case that trips after a non-tripping check, a slot case "
-        "that reuses a recycled slot, an encoder case with a success and a too-small buffer; distinct by op text.")
+        "that reuses a recycled slot, a trailer case with an accepted and a refused block, an encoder case with a success and a too-small buffer; distinct by op text.")
 ASSUMPTIONS = [
     "bytes are < 256 (list N models &[u8]); nom 7 `complete` combinators: a short input is Err::Error(Eof), which h2.rs maps to PROTOCOL_ERROR",
     "h2.rs feeds frame_header exactly 9 bytes and frame_body exactly payload_len bytes (expect_read); the model decodes from a longer buffer the same way",
